@@ -100,6 +100,12 @@ CHECKS = {
         note="Trusted base: the documented normalisation and merge rules as coded in the harness model, snapshot S, matcher E (for plain x HTML merged text).",
         ref="2/C15",
     ),
+    "C16": dict(
+        technique="model-based history testing: Hypothesis sequences of add_class / remove_class / has_class / add_style on a tag with generated initial class/style values against a whitespace-token-list model (colliding token pool, padded removals, rejected declarations leave the snapshot unchanged); css() against a char-by-char key model and the add_style acceptance law",
+        text="Seeded generated histories compared with a token-list model after every step, plus generated css() keyword sets against a reference key transformation. Exploration.",
+        note="Trusted base: the token-list / declaration model in the harness; snapshot S for 'rejects without modifying'.",
+        ref="2/C16",
+    ),
 }
 
 PENDING_REASON = "check not built yet in this revision (work in progress; see DESIGN.md section 2 for the planned generator and oracle)"
